@@ -5,7 +5,7 @@ import itertools
 from detsim.core import HistoryWorld, Violation
 from refmodel import hashmap as refhm, tlb
 from refmodel.rcell import RCellError
-from .common import call, to01, Cell, Builder, Slice, Address, tvm_bits
+from .common import call, call_shallow, to01, Cell, Builder, Slice, Address, tvm_bits
 
 from pytoniq_core.boc.hashmap import HashMap
 
@@ -344,7 +344,9 @@ class DictWorld(HistoryWorld):
             return
         n = st.n
         model = st.model
-        ok, cell = call(st.h.serialize)
+        deep = bool(ctx.cfg.get('ladder'))
+        docall = call_shallow if deep else call     # deep maps: from the bottom of an empty stack (see call_shallow)
+        ok, cell = docall(st.h.serialize)
         if len(model) >= 2:
             ctx.probe('map-with-2+-keys')
         if not model:
@@ -379,7 +381,7 @@ class DictWorld(HistoryWorld):
         want = sorted(model.items())
         dz = self._deser(st)
         for route in op['routes']:
-            ok, got = call(self._parse, st, cell, route, dz)
+            ok, got = docall(self._parse, st, cell, route, dz)
             if not ok:
                 self.V(ctx, 'parse-fails', route, 'width-%s%s' % (_wclass(n), dk), 'parsing the serialised map (%d keys, width %d) via %s raised %r' % (len(model), n, route, got))
                 return
@@ -397,7 +399,7 @@ class DictWorld(HistoryWorld):
         h2 = self._mk_hashmap(st)
         for k in keys:
             h2.set(('k%d' % k) if st.kser else k, self._lib_value_norm(st, model[k]))
-        ok, c2 = call(h2.serialize)
+        ok, c2 = docall(h2.serialize)
         if not ok or c2.hash != cell.hash:
             self.V(ctx, 'insertion-order', 'serialize', 'keys-%s' % _kclass(len(model)), 'the same %d entries inserted in another order give a different cell' % len(model))
 
